@@ -13,7 +13,7 @@ def run(chk):
                      cmd="c03-fuzz", stats="C03_fuzz_stats.json", n_quick=5000, n_thorough=40000,
                      what="two seeded input streams: mostly-valid (generated programs, the repository's test-table strings, hand-written seeds and their mutations: token deletion/duplication/transposition, truncation, bracket unbalancing, corrupt literals, stray symbols, keywords in odd places, nesting to depth 2000, empty operands, missing returns, type names as values, import forms) and malformed (random bytes, token soups, NUL, invalid UTF-8, very long lines / identifiers / many lines, empty input, comments); Load on random in-memory trees (broken / empty files, no or conflicting package clause, cycles, self-import, missing imports, _test.go, build tags, no .go files, deep paths, file vs directory argument, weird arguments); all 8 option subsets; Call / Func with missing names, non-functions, wrong arities, result counts 0..5 and out of range, natives, values of the wrong kind.  Failing = a panic that leaves an entry point or a stage, a front-end stage that does not return in 5 s, a child killed by a Go fatal error outside the running script, an error from Eval / Load without a stage prefix; each class is minimised by delta debugging"),
                 dict(name="recursion depth (finding candidates, children only)", cmd="c03-deep", stats="C03_deep_stats.json", n_quick=1, n_thorough=1,
-                     what="smallest nesting depth at which a child process dies with Go's unrecoverable 'stack overflow' (parentheses, additions, nested blocks, and a TERMINATING recursive script); both tiers at Go's default stack limit; since /repo limits nesting to 10000 levels (fix efe2cfa) every front-end family must survive, with a parse or compile error, up to 4 M (quick) / 64 M (thorough) levels; a death is a failing input of kind deep-nesting")],
+                     what="smallest nesting depth at which a child process dies with Go's unrecoverable 'stack overflow' (parentheses, additions, nested blocks, and a TERMINATING recursive script); both tiers at Go's default stack limit; since /repo limits nesting to 10000 levels (fix efe2cfa) every front-end family must survive, with a parse or compile error, up to 4 M (quick) / 8 M (thorough) levels; a death is a failing input of kind deep-nesting")],
         assumptions=[
             "PROVED (Print Assumptions: closed): with the glue and handlers of Model/Host.v exact (loadImports' deferred recover, rawLoadPackage's nil-fs guard, the nil-safe token.String, newPos' clamp16, Load's prefixed 'unexpected returns'), no panic escapes Eval / Load / Call / Func GIVEN entry_hyps (c03_contain); the loader needs no hypothesis at all (c03_loader_contained: unquotable import paths, nil nodes, nil fs.FS, panics while reading imported packages); every error of Eval and of Load carries a stage prefix (c03_prefix, c03_prefix_load, no exception left); token list non-empty and (eof)-terminated => parse's handler finds p.Token non-nil (c03_inv_tokens); newPos/pos.info keep every field in place for ARBITRARY indices, lines and columns (c03_inv_pos_roundtrip, c03_inv_pos_string); btErr total for every frame.N and backtrace (c03_inv_bterr_total); loadImports returns the top package at least (c03_inv_pkgs_nonempty); treeDump's s[3:len(s)-1] in range for every tree loadImports hands on, nil operands included (c03_inv_tree_dump); Func/Call contain every requested result count (c03_inv_func); only the running script or a worklist that exhausts its budget can hang an entry point (c03_hang, c03_hang_load)",
             "PROVED termination: Pratt loop on ANY token list within |tokens|+1 (c03_terminates_pratt), loader worklist on every finite import-closed universe within 2 + #import entries (c03_terminates_load, proved here on Model/Loader.v; it does not rely on C15's c15_terminates), lookup renamers (c03_terminates_lookup = C08), peephole fuel (c03_terminates_peephole), cursor discipline of every statement-level parser loop on the skeleton Model/Cursor.v (c03_parse_progress_partial / _general), recursion depth <= |tokens|+1 (c03_depth_bound)",
